@@ -5,6 +5,9 @@ CONSTANTS
   Workers = 3
   Dev_CompletionOrder = FALSE
   Dev_BadFramingWaits = FALSE
+  Dev_SplitSendUnlocked = FALSE
+  Dev_ExtractOnlyFirst = FALSE
 INVARIANT InOrder
 INVARIANT AllAnswered
+INVARIANT NoInterleave
 CHECK_DEADLOCK FALSE
